@@ -216,8 +216,14 @@ func (c *Ctx) path(v ssa.Value, env Env, d int) string {
 		}
 		return c.path(x.X, env, d) + "." + fieldName(x.X.Type(), x.Field)
 	case *ssa.IndexAddr:
+		if src, ok := c.subsequenceSource(x.X); ok && c.path(x.Index, env, d+1) == "ι" {
+			return c.path(src, env, d+1) + "[ι]"
+		}
 		return c.path(x.X, env, d) + "[" + c.path(x.Index, env, d+1) + "]"
 	case *ssa.Index:
+		if src, ok := c.subsequenceSource(x.X); ok && c.path(x.Index, env, d+1) == "ι" {
+			return c.path(src, env, d+1) + "[ι]"
+		}
 		return c.path(x.X, env, d) + "[" + c.path(x.Index, env, d+1) + "]"
 	case *ssa.Lookup:
 		return c.path(x.X, env, d) + "[" + c.path(x.Index, env, d+1) + "]"
@@ -332,6 +338,34 @@ func (c *Ctx) callPath(cc *ssa.CallCommon, env Env, d int) string {
 	if b, ok := cc.Value.(*ssa.Builtin); ok {
 		return b.Name() + "(" + strings.Join(args, ",") + ")"
 	}
+	// a function handed to this helper by its caller (`key(item)` with key a function literal of the caller): a
+	// literal that only computes and returns a value reads as that value, in the frame it was made in
+	if p, isP := cc.Value.(*ssa.Parameter); isP && env != nil {
+		if fa, known := c.fnArgs[env[p]]; known {
+			var fn *ssa.Function
+			switch y := fa.v.(type) {
+			case *ssa.Function:
+				fn = y
+			case *ssa.MakeClosure:
+				fn, _ = y.Fn.(*ssa.Function)
+			}
+			if fn != nil && len(fn.Blocks) == 1 && len(fn.FreeVars) == 0 && fn.Parent() != nil && d < 8 {
+				if ret, isR := fn.Blocks[0].Instrs[len(fn.Blocks[0].Instrs)-1].(*ssa.Return); isR && len(ret.Results) == 1 {
+					genv := Env{}
+					for i, a := range args {
+						if i < len(fn.Params) {
+							genv[fn.Params[i]] = a
+						}
+					}
+					return c.path(ret.Results[0], genv, d+2)
+				}
+			}
+		}
+	}
+	// the function field of the table row under consideration: the call reads as a call of that function
+	if f, ok := c.fnSubst[cc.Value]; ok && f != nil {
+		return fname(f) + "(" + strings.Join(args, ",") + ")"
+	}
 	return "dyn:" + c.path(cc.Value, env, d+1) + "(" + strings.Join(args, ",") + ")"
 }
 
@@ -385,6 +419,11 @@ func (c *Ctx) Callees(cc *ssa.CallCommon) []*ssa.Function {
 			out = append(out, tbl[k])
 		}
 		return out
+	}
+	// a function-valued field of a row of a package-level table (slice literal of structs), the row chosen by a loop:
+	// any row's function
+	if fs := c.tableFieldFuncs(cc.Value); len(fs) > 0 {
+		return fs
 	}
 	// a function-typed parameter of an unexported function: what its call sites in the module pass
 	if p, ok := cc.Value.(*ssa.Parameter); ok {
@@ -748,6 +787,11 @@ func nilTestEdges(v ssa.Value, wantNil bool) []edge {
 	var out []edge
 	if v.Referrers() == nil {
 		return nil
+	}
+	// an error handed to a decorating helper that answers nil exactly when it is handed nil: a nil test of the
+	// decorated error is a nil test of this one
+	for _, d := range decoratedErrs(v) {
+		out = append(out, nilTestEdges(d, wantNil)...)
 	}
 	for _, r := range *v.Referrers() {
 		b, ok := r.(*ssa.BinOp)
@@ -1968,4 +2012,309 @@ func (c *Ctx) globalAlias(g *ssa.Global) *ssa.Global {
 		c.aliasMemo[g] = src
 	}
 	return c.aliasMemo[g]
+}
+
+// decoratedErrs: the results of nil-preserving error decorators applied to the error value v
+// (`err := wrap("section", validate(x))`).
+func decoratedErrs(v ssa.Value) []ssa.Value {
+	if v.Referrers() == nil || !isErrType(v.Type()) {
+		return nil
+	}
+	var out []ssa.Value
+	for _, r := range *v.Referrers() {
+		cl, ok := r.(*ssa.Call)
+		if !ok || !isErrType(cl.Type()) {
+			continue
+		}
+		h := cl.Call.StaticCallee()
+		if h == nil || !inModule(h) || h.Blocks == nil {
+			continue
+		}
+		for i, a := range cl.Call.Args {
+			if a == v && i < len(h.Params) && nilPreservingDecorator(h, i) {
+				out = append(out, cl)
+			}
+		}
+	}
+	return out
+}
+
+var nilPreservingMemo = map[*ssa.Function]map[int]bool{}
+
+// nilPreservingDecorator: h returns one error; it returns nil only where its i-th parameter is known to be nil, and
+// where that parameter is known to be nil it returns nil (or the parameter itself).
+func nilPreservingDecorator(h *ssa.Function, i int) bool {
+	if m, ok := nilPreservingMemo[h]; ok {
+		if v, done := m[i]; done {
+			return v
+		}
+	} else {
+		nilPreservingMemo[h] = map[int]bool{}
+	}
+	nilPreservingMemo[h][i] = false
+	if h.Signature.Results().Len() != 1 || i >= len(h.Params) || !isErrType(h.Params[i].Type()) {
+		return false
+	}
+	p := h.Params[i]
+	nNil, nOther := 0, 0
+	for _, r := range returnsOf(h) {
+		res := r.Results[0]
+		known := knownNilAt(p, r.Block(), 0) != nil
+		switch {
+		case res == ssa.Value(p):
+			// handed back as it is
+		case isNilConst(res):
+			if !known {
+				return false // answers nil for a non-nil error
+			}
+			nNil++
+		default:
+			if known {
+				return false // builds an error out of nothing
+			}
+			if !nonNilErr(res, r) {
+				return false
+			}
+			nOther++
+		}
+	}
+	ok := nNil+nOther > 0
+	nilPreservingMemo[h][i] = ok
+	return ok
+}
+
+func isNilConst(v ssa.Value) bool {
+	k, ok := v.(*ssa.Const)
+	return ok && k.IsNil()
+}
+
+// tableFieldFuncs: v is the function-valued field fld of an element of a package-level slice literal of structs (read
+// directly, or through the range variable's own copy of the element; the table possibly selected by a φ among several):
+// the functions stored in that field across all rows of the candidate tables. Nil when v has another shape.
+func (c *Ctx) tableFieldFuncs(v ssa.Value) []*ssa.Function {
+	ld, ok := v.(*ssa.UnOp)
+	if !ok || ld.Op != token.MUL {
+		return nil
+	}
+	fa, ok := ld.X.(*ssa.FieldAddr)
+	if !ok {
+		return nil
+	}
+	// the element address
+	var elem *ssa.IndexAddr
+	switch b := fa.X.(type) {
+	case *ssa.IndexAddr:
+		elem = b
+	case *ssa.Alloc:
+		if st := wholeStore(b); st != nil {
+			if l2, isLd := st.Val.(*ssa.UnOp); isLd && l2.Op == token.MUL {
+				elem, _ = l2.X.(*ssa.IndexAddr)
+			}
+		}
+	}
+	if elem == nil {
+		return nil
+	}
+	var tables []*ssa.Global
+	var collect func(x ssa.Value, d int) bool
+	collect = func(x ssa.Value, d int) bool {
+		if d > 3 {
+			return false
+		}
+		switch y := x.(type) {
+		case *ssa.UnOp:
+			if g, isG := y.X.(*ssa.Global); isG && y.Op == token.MUL {
+				tables = append(tables, g)
+				return true
+			}
+		case *ssa.Phi:
+			for _, e := range y.Edges {
+				if !collect(e, d+1) {
+					return false
+				}
+			}
+			return len(y.Edges) > 0
+		}
+		return false
+	}
+	if !collect(elem.X, 0) {
+		return nil
+	}
+	seen := map[*ssa.Function]bool{}
+	var out []*ssa.Function
+	for _, g := range tables {
+		sl := c.globalSliceInit(g)
+		if sl == nil {
+			return nil
+		}
+		al, isAl := sl.X.(*ssa.Alloc)
+		if !isAl {
+			return nil
+		}
+		for _, r := range *al.Referrers() {
+			ia, isIA := r.(*ssa.IndexAddr)
+			if !isIA {
+				continue
+			}
+			for _, rr := range *ia.Referrers() {
+				f2, isFA := rr.(*ssa.FieldAddr)
+				if !isFA || f2.Field != fa.Field {
+					continue
+				}
+				for _, r3 := range *f2.Referrers() {
+					if st, isS := r3.(*ssa.Store); isS && st.Addr == ssa.Value(f2) {
+						fn := funcValueOf(st.Val)
+						if fn == nil {
+							return nil
+						}
+						if !seen[fn] {
+							seen[fn] = true
+							out = append(out, fn)
+						}
+					}
+				}
+			}
+		}
+	}
+	sort.Slice(out, func(i, j int) bool { return out[i].String() < out[j].String() })
+	return out
+}
+
+// subsequenceSource: v is the result of an unexported module helper that returns a sub-sequence of one of its slice
+// arguments — a result built only by appending elements of that parameter (a filter, a de-duplication): an element of
+// the result is an element of that argument. Returns the argument.
+func (c *Ctx) subsequenceSource(v ssa.Value) (ssa.Value, bool) {
+	var cl *ssa.Call
+	switch y := v.(type) {
+	case *ssa.Call:
+		cl = y
+	case *ssa.Extract:
+		if y.Index == 0 {
+			cl, _ = y.Tuple.(*ssa.Call)
+		}
+	}
+	if cl == nil {
+		return nil, false
+	}
+	g := cl.Call.StaticCallee()
+	if g == nil || !inModule(g) || g.Blocks == nil {
+		return nil, false
+	}
+	pi, done := c.subseqMemo[g]
+	if !done {
+		if c.subseqMemo == nil {
+			c.subseqMemo = map[*ssa.Function]int{}
+		}
+		pi = subsequenceParam(g)
+		c.subseqMemo[g] = pi
+	}
+	if pi < 0 || pi >= len(cl.Call.Args) {
+		return nil, false
+	}
+	return cl.Call.Args[pi], true
+}
+
+// subsequenceParam: the index of the slice parameter of which g returns a sub-sequence, -1 if g is not of that shape:
+// every return hands back a slice accumulator (a φ of nil and appends onto itself), every append adds exactly one
+// element, and each appended element is the range element of one and the same parameter.
+func subsequenceParam(g *ssa.Function) int {
+	if g.Signature.Results().Len() < 1 {
+		return -1
+	}
+	if _, isSl := g.Signature.Results().At(0).Type().Underlying().(*types.Slice); !isSl {
+		return -1
+	}
+	pi := -1
+	nApp := 0
+	ok := true
+	forEachInstr(g, func(in ssa.Instruction) {
+		cl, isC := in.(*ssa.Call)
+		if !isC {
+			return
+		}
+		bi, isB := cl.Call.Value.(*ssa.Builtin)
+		if !isB || bi.Name() != "append" || len(cl.Call.Args) != 2 || !types.Identical(cl.Type(), g.Signature.Results().At(0).Type()) {
+			return
+		}
+		nApp++
+		// append(acc, elem): the vararg slice holds one element
+		sl, isSl := cl.Call.Args[1].(*ssa.Slice)
+		if !isSl {
+			ok = false
+			return
+		}
+		al, isAl := sl.X.(*ssa.Alloc)
+		if !isAl {
+			ok = false
+			return
+		}
+		n := 0
+		for _, r := range *al.Referrers() {
+			ia, isIA := r.(*ssa.IndexAddr)
+			if !isIA {
+				continue
+			}
+			for _, rr := range *ia.Referrers() {
+				st, isS := rr.(*ssa.Store)
+				if !isS || st.Addr != ssa.Value(ia) {
+					continue
+				}
+				n++
+				// the stored value: a load of param[i] with i the range induction
+				ld, isLd := st.Val.(*ssa.UnOp)
+				if !isLd || ld.Op != token.MUL {
+					ok = false
+					continue
+				}
+				ea, isEA := ld.X.(*ssa.IndexAddr)
+				if !isEA {
+					ok = false
+					continue
+				}
+				p, isP := ea.X.(*ssa.Parameter)
+				if !isP || !isInduction(ea.Index) && !isInductionExpr(ea.Index) {
+					ok = false
+					continue
+				}
+				k := paramIndex(p)
+				if pi >= 0 && pi != k {
+					ok = false
+				}
+				pi = k
+			}
+		}
+		if n != 1 {
+			ok = false
+		}
+	})
+	if !ok || nApp == 0 || pi < 0 {
+		return -1
+	}
+	// every return hands back the accumulator
+	for _, r := range returnsOf(g) {
+		if len(r.Results) == 0 {
+			return -1
+		}
+		acc := false
+		for v := range backSlice(r.Results[0]) {
+			if cl, isC := v.(*ssa.Call); isC {
+				if bi, isB := cl.Call.Value.(*ssa.Builtin); isB && bi.Name() == "append" {
+					acc = true
+				}
+			}
+		}
+		if k, isK := r.Results[0].(*ssa.Const); isK && k.IsNil() {
+			acc = true
+		}
+		if !acc {
+			return -1
+		}
+	}
+	return pi
+}
+
+// isInductionExpr: phi(-1, i) + 1 — the index of a range loop over a slice.
+func isInductionExpr(v ssa.Value) bool {
+	b, ok := v.(*ssa.BinOp)
+	return ok && b.Op == token.ADD && isInduction(b.X)
 }
